@@ -295,7 +295,7 @@ Definition read_at (fx : bool) (s : st) (rs : bool) (blank fail : list N) (blob 
   (rd, err, firstn (N.to_nat rd) (flat_map r_buf results)).
 
 (* which tree run_case models: the unrepaired code (F15 is a known finding) *)
-Definition f15_fixed : bool := false.
+Definition f15_fixed : bool := true.
 
 (* ---------- wire helpers ---------- *)
 Definition zN (z : Z) : N := Z.to_N z.
